@@ -26,6 +26,9 @@ def main_texts(pool: dict[str, Any], rng: random.Random) -> list[str]:
 		t = pools.tag_of(m)
 		texts.append(f'from {m} import make_{t}\ndef main_{t}(k: int) -> int:\n\tv = make_{t}()\n\tw = v.value\n\tu = w\n\txs = [u]\n\treturn k if k > 0 else len(xs)')
 	texts.append('from __main__ import A\nclass A:\n\tn: int\n\tdef __init__(self) -> None:\n\t\tself.n = 0\ndef use_a(k: int) -> int:\n\ta = A()\n\treturn a.n + k')
+	# the same shape with another class at the same tree position (state keyed by position must not survive a re-submission)
+	for name in ('Alpha', 'Beta', 'Gamma'):
+		texts.append(f'class {name}:\n\tdef value(self) -> int:\n\t\treturn 1\ndef run() -> None:\n\ta = {name}()\n\tprint(a.value())')
 	texts.append("def lone(k: int) -> int:\n\ts = 'x'\n\tn = len(s)\n\treturn k + n")
 	texts.append('def lone2(k: int) -> float:\n\tf = 1.5\n\treturn f')
 	texts.append('def bad(k: int) -> int:\n\treturn undefined_name + k')
@@ -387,6 +390,8 @@ class C04(Engine):
 			cases.append({'pool': pool, 'flavour': 'interactive', 'cache': False, 'ops': [S(texts[-3]), S(texts[0]), S(texts[-1]), S(texts[0]), S(texts[-5])]})
 			cases.append({'pool': pool, 'flavour': 'interactive', 'cache': None, 'ops': [S(texts[-4]), S(texts[-5]), S(texts[2]), S(texts[-5])]})
 			cases.append({'pool': pool, 'flavour': 'interactive', 'cache': 'lib', 'ops': [S(texts[-2]), S(texts[len(mods) - 1]), S(texts[-2]), S(texts[0])]})
+			same_shape = [t for t in texts if t.startswith('class Alpha') or t.startswith('class Beta') or t.startswith('class Gamma')]
+			cases.append({'pool': pool, 'flavour': 'interactive', 'cache': 'lib', 'ops': [S(same_shape[0]), S(same_shape[1]), S(same_shape[2]), S(same_shape[0])]})
 		ex = pools.example_pool()
 		T = lambda m, **kw: {'op': 'transpile', 'm': m, **kw}
 		cases.append({'pool': ex, 'flavour': 'runner', 'cache': 'warm', 'ops': [T('example.json'), T('example.FW.string', isolate=True), T('example.json'), {'op': 'unload', 'm': 'example.FW.string'}, T('example.json')]})
